@@ -70,6 +70,11 @@ class NT2(NamedTuple):
     q: int = 3
     r: Optional[H2] = None
 
+class NT3(NamedTuple):
+    q: int
+    t: Tuple[H1, int] = (H1(0), 0)
+    n: NT1 = NT1(H1(1), 2)
+
 class TD1(TypedDict):
     p: H1
     q: int
@@ -92,7 +97,7 @@ LEAVES = [
     "ipaddress.IPv4Interface", "ipaddress.IPv6Interface",
     "pathlib.PurePath", "pathlib.Path", "pathlib.PurePosixPath", "pathlib.PosixPath", "pathlib.PureWindowsPath", "os.PathLike",
     "bytes", "bytearray", "re.Pattern", "typing.Pattern",
-    "NT1", "NT2", "TD1", "TD2", "NTy", "TV", "TVA", "Annotated[H1, 'meta']", "Final[H1]",
+    "NT1", "NT2", "NT3", "TD1", "TD2", "NTy", "TV", "TVA", "Annotated[H1, 'meta']", "Final[H1]",
 ]
 HOLES = ["Any", "int", "str", "H1", "D1", "Optional[H1]", "Optional[int]", "datetime.date"]
 SEQ = ["List", "list", "Sequence", "MutableSequence", "Deque", "collections.deque", "Set", "set", "FrozenSet", "frozenset",
